@@ -1,9 +1,12 @@
 package main
 
 import (
+	"bytes"
+	"context"
 	"encoding/base64"
 	"fmt"
 	"io"
+	"mime/multipart"
 	"net/http"
 	"net/http/httptest"
 	"net/url"
@@ -86,15 +89,15 @@ func c20Gen(r *Rng, tier string, i int) Sx {
 		}
 		return L(A("auth"), LS(accts), S(hdr), c20Decode(hdr))
 	case 2:
-		vals := []string{"PUT", "put", "Patch", "DELETE", "delete", "POST", "GET", "", "PROPFIND", "HEAD", "pu", " put"}
+		vals := []string{"PUT", "put", "Patch", "DELETE", "delete", "POST", "GET", "", "PROPFIND", "HEAD", "pu", " put", "OPTIONS", "options", "TRACE", "CONNECT", "patch", "DELETE "}
 		m := r.Pick(rtMethods)
 		if r.Chance(1, 2) {
 			m = "POST"
 		}
 		if r.Chance(1, 4) { // the shipped Timeout middleware sits between the override wrapper and the observing handler
-			return L(A("ovr"), S(m), S(r.Pick(vals)), S(r.Pick(vals)), A(r.Pick([]string{"q", "b", "n"})), A("timeout"))
+			return L(A("ovr"), S(m), S(r.Pick(vals)), S(r.Pick(vals)), A(r.Pick([]string{"q", "b", "n", "m"})), A("timeout"))
 		}
-		return L(A("ovr"), S(m), S(r.Pick(vals)), S(r.Pick(vals)), A(r.Pick([]string{"q", "b", "n"})))
+		return L(A("ovr"), S(m), S(r.Pick(vals)), S(r.Pick(vals)), A(r.Pick([]string{"q", "b", "n", "m"})))
 	default:
 		if r.Bool() {
 			return L(A("wrap"), I(r.Range(1, 6)))
@@ -182,7 +185,14 @@ func c20Exec(c Sx) Sx {
 			body = strings.NewReader("_method=" + url.QueryEscape(fv))
 		}
 		var req *http.Request
-		if body != nil {
+		if carrier == "m" { // a multipart form carries the field
+			var buf bytes.Buffer
+			mw := multipart.NewWriter(&buf)
+			_ = mw.WriteField("_method", fv)
+			_ = mw.Close()
+			req = httptest.NewRequest(m, target, &buf)
+			req.Header.Set("Content-Type", mw.FormDataContentType())
+		} else if body != nil {
 			req = httptest.NewRequest(m, target, body)
 			req.Header.Set("Content-Type", "application/x-www-form-urlencoded")
 		} else {
@@ -224,6 +234,19 @@ func c20Exec(c Sx) Sx {
 		if first.String() != second.String() {
 			return L(A("wrap"), A("second-use-of-the-list-differs"), first, second)
 		}
+		if n > 1 { // another list on the same router is composed on its own (nothing is remembered)
+			evs = nil
+			r.WrapHTTPHandlers(ws[1:]...).ServeHTTP(httptest.NewRecorder(), httptest.NewRequest("GET", "/x", nil))
+			want := []Sx{A("wrap")}
+			for _, e := range second.List[1:] {
+				if e.Int() != 0 && e.Int() != 1 {
+					want = append(want, e)
+				}
+			}
+			if got := LS(append([]Sx{A("wrap")}, evs...)); got.String() != LS(want).String() {
+				return L(A("wrap"), A("a-second-list-on-the-router-is-not-composed-on-its-own"), got, LS(want))
+			}
+		}
 		return second
 	case "wraph":
 		n, k := c.List[1].Int(), c.List[2].Int()
@@ -240,6 +263,22 @@ func c20Exec(c Sx) Sx {
 		}
 		r.GET("/x", func(c *rux.Context) { evs = append(evs, I(990)) }, mws...)
 		r.ServeHTTP(httptest.NewRecorder(), httptest.NewRequest("GET", "/x", nil))
+		// a wrapped net/http handler is given the request as the middleware before it left it (context values, method)
+		{
+			type ctxKey struct{}
+			seen := ""
+			rr := rux.New()
+			rr.GET("/z", rux.WrapHTTPHandlerFunc(func(w http.ResponseWriter, rq *http.Request) {
+				seen = fmt.Sprint(rq.Context().Value(ctxKey{}), " ", rq.Method, " ", rq.URL.Path)
+			}), func(c *rux.Context) {
+				c.Req = c.Req.WithContext(context.WithValue(c.Req.Context(), ctxKey{}, "from-upstream"))
+				c.Next()
+			})
+			rr.ServeHTTP(httptest.NewRecorder(), httptest.NewRequest("GET", "/z", nil))
+			if seen != "from-upstream GET /z" {
+				return L(A("wraph"), A("wrapped-handler-does-not-see-the-request-of-the-chain"), S(seen))
+			}
+		}
 		// a plain net/http handler that answers (status, then text through io.WriteString / Write / Fprint) gives the
 		// response its native twin gives
 		codes := []int{503, 404, 201, 200}
